@@ -59,6 +59,7 @@ type engine struct {
 	steps  []any
 	crit   map[string]int
 	reopen int
+	stop   bool
 }
 
 func runCase(c map[string]any) common.Result {
@@ -84,6 +85,10 @@ func runCase(c map[string]any) common.Result {
 			return f
 		}
 		w.stats[str(st["a"])+":"+str(st["res"])]++
+		if e.stop {
+			e.crit["truncated"]++
+			break
+		}
 	}
 	e.abandon()
 	if f := e.finalReopen(); f != nil {
